@@ -57,6 +57,8 @@ func ProjectValue(v any) any {
 		return J{"k": "exc", "c": c}
 	case eval.Callable:
 		return J{"k": "fn"}
+	case *eval.Ns:
+		return J{"k": "ns"}
 	default:
 		return J{"k": "other:" + vals.Kind(v)}
 	}
@@ -71,7 +73,8 @@ func ProjectValues(vs []any) []any {
 }
 
 var (
-	reKeysValues = regexp.MustCompile(`^\d+ keys but \d+ values$`)
+	reKeysValues  = regexp.MustCompile(`^\d+ keys but \d+ values$`)
+	reVarNotFound = regexp.MustCompile(`^variable \$.* not found$`)
 )
 
 // messages of errors.New / fmt.Errorf reasons -> cause class
@@ -153,6 +156,9 @@ func ClassifyReason(r error) (J, bool) {
 	msg := r.Error()
 	if c, ok := messageClass[msg]; ok {
 		return J{"c": c}, true
+	}
+	if reVarNotFound.MatchString(msg) {
+		return J{"c": "no-such-variable"}, true
 	}
 	if reKeysValues.MatchString(msg) {
 		return J{"c": "arity"}, true
